@@ -26,7 +26,11 @@
  * C03 mode (--rtloop): for every run-time subset of the CPU features this
  * executable was built with, a forked child forces the cpusupport globals,
  * runs the searches, and then requires (shims) that the intended code path
- * was selected AND entered; otherwise vf_engine_error.
+ * was selected AND entered; otherwise vf_engine_error - except when the
+ * library's own one-vector self-test of that path, asked again through the
+ * shim, fails: the library's run-time fallback is then legitimate, the pair is
+ * counted (rt<rt>.<module>_disabled_by_selftest) and compared as usual
+ * (check_hash_paths, haes_check_paths).
  *
  * NOT COVERED: other message contents; lengths > L (except the 2^29 window);
  * the 2^61-byte wrap of the bit counters; key/salt contents other than the
@@ -654,28 +658,66 @@ run_hash_unit(uint64_t u)
 	else long_unit(U->aux);
 }
 
-/* Non-vacuity (C03): the path the shims report, and the entry counters, must match the forced configuration. */
+/*
+ * Non-vacuity (C03): the path the shims report, and the entry counters, must match the forced configuration.
+ * One exception: if the library did NOT select the intended accelerated path, its own one-vector self-test of that
+ * path is asked again through the shim.  If that self-test FAILS, the run-time fallback is what the library documents
+ * ("Disabling ... due to failed self-test"): selection then changed speed only, the property is not touched, the
+ * pair is counted (rt<rt>.<module>_disabled_by_selftest) and its outputs have been compared with the oracles as in
+ * every other pair.  If the self-test PASSES and the path still was not selected, or the entry counters do not fit
+ * the path in use, the forcing of the cpusupport flags did not work: engine error as before.
+ */
 static void
 check_hash_paths(int rt, int usedsha, int usedcrc)
 {
 	int es_ = hc_expect_sha(HC_BUILD_MASK, rt), ec = hc_expect_crc(HC_BUILD_MASK, rt);
-	char k[64];
+	char k[64], b[40];
 
 	if (usedsha) {
 		int p = verif_sha256_path();
-		if (p != es_) vf_engine_error("build %d rt %d: SHA-256 selected path %d, intended %d (self-test failed or forcing ineffective)", HC_BUILD_MASK, rt, p, es_);
-		if ((es_ == 1) != (verif_sha256_calls_shani > 1) || (es_ == 2) != (verif_sha256_calls_sse2 > 1) ||
-		    (es_ != 1 && verif_sha256_calls_shani > 0) || (es_ <= 0 && verif_sha256_calls_sse2 > 0))
-			vf_engine_error("build %d rt %d: SHA-256 transform entry counters shani=%llu sse2=%llu do not match intended path %d", HC_BUILD_MASK, rt,
-			    (unsigned long long)verif_sha256_calls_shani, (unsigned long long)verif_sha256_calls_sse2, es_);
-		snprintf(k, sizeof(k), "rt%d.sha256_path", rt); vf_setmax(k, (uint64_t)(es_ < 0 ? 0 : es_));
+		unsigned long long ns = (unsigned long long)verif_sha256_calls_shani, n2 = (unsigned long long)verif_sha256_calls_sse2;
+		if (p != es_) {
+			/* self-tests of the transforms the library had to try: the flags report them and they are compiled in */
+			int t1 = (HC_BUILD_MASK & rt & HC_SHANI) ? verif_sha256_selftest(1) : -1, t2 = (HC_BUILD_MASK & rt & HC_SSE2) ? verif_sha256_selftest(2) : -1;
+			int legit = t1 == 0 ? 1 : t2 == 0 ? 2 : 0;	/* what hwaccel_init() must arrive at with these self-test results */
+			if (es_ <= 0 || (t1 != 1 && t2 != 1) || p != legit)
+				vf_engine_error("build %d rt %d: SHA-256 selected path %d, intended %d; the library's own self-tests asked again: SHA-NI %s, SSE2 %s (with these results the library has to select path %d): the forcing of the cpusupport flags did not work", HC_BUILD_MASK, rt, p, es_,
+				    t1 < 0 ? "not tried" : t1 ? "FAILS" : "passes", t2 < 0 ? "not tried" : t2 ? "FAILS" : "passes", legit);
+			/* entry counters: the path in use really worked (self-test + the unit), a failed one was entered by its self-test at most, an unreported one never */
+			if ((p == 1) != (ns > 1) || (p == 2) != (n2 > 1) || (t1 < 0 && ns > 0) || (t2 < 0 && n2 > 0))
+				vf_engine_error("build %d rt %d: SHA-256 fell back to path %d after a failed self-test (SHA-NI %s, SSE2 %s) but the transform entry counters shani=%llu sse2=%llu do not fit that", HC_BUILD_MASK, rt, p,
+				    t1 < 0 ? "not tried" : t1 ? "FAILS" : "passes", t2 < 0 ? "not tried" : t2 ? "FAILS" : "passes", ns, n2);
+			snprintf(k, sizeof(k), "rt%d.sha256_disabled_by_selftest", rt); vf_count(k, 1);
+			vf_count("selftest_fallback_children", 1);
+			printf("build %d rt {%s}: the library's own self-test of the SHA-256 %s transform fails; it fell back to %s at run time (selection changes speed only); outputs were compared with the oracles as usual\n",
+			    HC_BUILD_MASK, hc_maskname(rt, b), hc_pathname(0, es_), hc_pathname(0, p));
+			if (p > 0) { snprintf(k, sizeof(k), "rt%d.sha256_path", rt); vf_setmax(k, (uint64_t)p); }	/* (the counter table of engine/vf.c is small: no zero-valued entry beside the _disabled_by_selftest one) */
+		} else {
+			if ((es_ == 1) != (verif_sha256_calls_shani > 1) || (es_ == 2) != (verif_sha256_calls_sse2 > 1) ||
+			    (es_ != 1 && verif_sha256_calls_shani > 0) || (es_ <= 0 && verif_sha256_calls_sse2 > 0))
+				vf_engine_error("build %d rt %d: SHA-256 transform entry counters shani=%llu sse2=%llu do not match intended path %d", HC_BUILD_MASK, rt, ns, n2, es_);
+			snprintf(k, sizeof(k), "rt%d.sha256_path", rt); vf_setmax(k, (uint64_t)(es_ < 0 ? 0 : es_));
+		}
 	}
 	if (usedcrc) {
 		int p = verif_crc32c_path();
-		if (p != ec) vf_engine_error("build %d rt %d: CRC32C selected path %d, intended %d", HC_BUILD_MASK, rt, p, ec);
-		if ((ec == 1) != (verif_crc32c_calls_sse42 > 1))
-			vf_engine_error("build %d rt %d: CRC32C SSE4.2 entry counter %llu does not match intended path %d", HC_BUILD_MASK, rt, (unsigned long long)verif_crc32c_calls_sse42, ec);
-		snprintf(k, sizeof(k), "rt%d.crc32c_path", rt); vf_setmax(k, (uint64_t)(ec < 0 ? 0 : ec));
+		unsigned long long nc = (unsigned long long)verif_crc32c_calls_sse42;
+		if (p != ec) {
+			int t = ec == 1 ? verif_crc32c_selftest() : -1;
+			if (ec != 1 || t != 1 || p != 0)
+				vf_engine_error("build %d rt %d: CRC32C selected path %d, intended %d; the library's own self-test asked again: %s: the forcing of the cpusupport flags did not work", HC_BUILD_MASK, rt, p, ec,
+				    t < 0 ? "not tried" : t ? "FAILS" : "passes");
+			if (nc > 1)
+				vf_engine_error("build %d rt %d: CRC32C fell back to the portable code after a failed self-test but the SSE4.2 routine was entered %llu times", HC_BUILD_MASK, rt, nc);
+			snprintf(k, sizeof(k), "rt%d.crc32c_disabled_by_selftest", rt); vf_count(k, 1);
+			vf_count("selftest_fallback_children", 1);
+			printf("build %d rt {%s}: the library's own self-test of the SSE4.2 CRC32C routine fails; it fell back to the portable code at run time (selection changes speed only); outputs were compared with the oracle as usual\n",
+			    HC_BUILD_MASK, hc_maskname(rt, b));
+		} else {
+			if ((ec == 1) != (verif_crc32c_calls_sse42 > 1))
+				vf_engine_error("build %d rt %d: CRC32C SSE4.2 entry counter %llu does not match intended path %d", HC_BUILD_MASK, rt, nc, ec);
+			snprintf(k, sizeof(k), "rt%d.crc32c_path", rt); vf_setmax(k, (uint64_t)(ec < 0 ? 0 : ec));
+		}
 	}
 }
 
@@ -865,6 +907,11 @@ main(int argc, char ** argv)
 		}
 		vf_info("pairs_verified", "%s", line);
 		vf_count("pairs", (uint64_t)nrt);
+		if (vf_getcount("selftest_fallback_children") > 0)
+			vf_info("selftest_fallbacks", "in %llu (run-time subset, unit) children of this build the library did not select the intended accelerated path because ITS OWN one-vector self-test of that path fails "
+			    "(asked again through the shims); it fell back to a slower path there, which is its documented behaviour and changes speed only, so the property is not touched; the outputs of those children were "
+			    "compared with the oracles like all others. \"pairs_verified\" names the intended paths; the pairs concerned are the counters rt<rt>.<module>_disabled_by_selftest",
+			    (unsigned long long)vf_getcount("selftest_fallback_children"));
 	} else {
 		/* native selection: report it, and fail if the run was meant for another path */
 		int ps, pc, nat = hc_native_rt();
@@ -872,8 +919,16 @@ main(int argc, char ** argv)
 		SHA256_Init(&sc); CRC32C_Init(&cc);
 		ps = verif_sha256_path(); pc = verif_crc32c_path();
 		vf_info("paths", "host features {%s}; sha256=%s crc32c=%s", hc_maskname(nat, b2), hc_pathname(0, ps), hc_pathname(1, pc));
-		if (expect_mode == 1 && ((algmask & 1 && ps <= 0) || (algmask & BIT_CRC && pc <= 0))) vf_engine_error("run expects accelerated paths but sha256 path=%d crc32c path=%d", ps, pc);
-		if (expect_mode == 2 && (ps > 0 || pc > 0)) vf_engine_error("run expects portable paths but sha256 path=%d crc32c path=%d", ps, pc);
+		/* (only without recorded violations: an engine error would discard them, and they are the result then) */
+		if (vf_nviolations() == 0 && expect_mode == 1) {
+			/* an accelerated path that the library's own self-test rejects is legitimately off (the property holds through the fallback) */
+			int sha_off = (algmask & 1) && ps <= 0, crc_off = (algmask & BIT_CRC) && pc <= 0;
+			if (sha_off && (nat & HC_SHANI) && verif_sha256_selftest(1) == 1 && (!(nat & HC_SSE2) || verif_sha256_selftest(2) == 1)) { sha_off = 0; vf_count("sha256_disabled_by_selftest", 1); }
+			else if (sha_off && !(nat & HC_SHANI) && (nat & HC_SSE2) && verif_sha256_selftest(2) == 1) { sha_off = 0; vf_count("sha256_disabled_by_selftest", 1); }
+			if (crc_off && (nat & HC_SSE42) && verif_crc32c_selftest() == 1) { crc_off = 0; vf_count("crc32c_disabled_by_selftest", 1); }
+			if (sha_off || crc_off) vf_engine_error("run expects accelerated paths but sha256 path=%d crc32c path=%d (and the library's own self-tests pass)", ps, pc);
+		}
+		if (vf_nviolations() == 0 && expect_mode == 2 && (ps > 0 || pc > 0)) vf_engine_error("run expects portable paths but sha256 path=%d crc32c path=%d", ps, pc);
 	}
 #ifdef H_COMBINED
 	haes_finish((uint64_t)nrt);
